@@ -87,7 +87,7 @@ PROPS = {
     "C03": {
         "level": "proof",
         "verus": ["lexer"],
-        "kani": ["apollo-parser/lexer.rs"],
+        "kani": ["apollo-parser/lexer.rs", "apollo-parser/cursor.rs"],
         "technique": "Verus contract on the extracted lexer state machine (Cursor::advance) over a ghost cursor model (unbounded) + Kani loop-free harnesses over every char for the lookup tables",
         "explanation": "Verus proves on the whole extracted state machine Cursor::advance / eof / done / unterminated_spread_operator, for every source text: each call hands out exactly the next "
                        "piece of the input (token text or error fragment; concatenated in order they reproduce the input), every item except EOF is non-empty (so lexing terminates), EOF "
@@ -97,7 +97,7 @@ PROPS = {
                        "Digit, `.` or NameStart; comment up to the line terminator). "
                        "Kani proves for every char value that the lookup tables (Punctuator kinds, NameStart) and the character classes equal the October 2021 tables; these are the contracts "
                        "the Verus unit assumes for lookup::*.",
-        "assumptions": ["the ghost model of Cursor's primitives bump / eatc / current_str / prev_str / drain over CharIndices (lexer/cursor.rs; written from their bodies, not verified)",
+        "assumptions": ["the ghost model of Cursor's primitives bump / eatc / current_str / prev_str / drain over CharIndices (lexer/cursor.rs; written from their bodies; validated only by the BOUNDED Kani harness c03_cursor_primitives_match_model: 7 source strings, all 4-call sequences)",
                         "`&self.source[a..b]` is rewritten to str_slice(self.source, a, b) whose precondition is 'a <= b, both char boundaries' (std semantics of str slicing, assumed)",
                         "u32::from_str_radix(s, 16) is Ok for 1..=8 hex digits (std, assumed)"],
         "not_decided": ["StringValue tokens: only `starts and ends with a quote` is proved, not the StringCharacter / BlockStringCharacter grammar",
